@@ -7,6 +7,7 @@ mod inv;
 mod c01;
 mod c02;
 mod c08;
+mod c12;
 mod inputs;
 mod loader;
 mod engine;
@@ -33,6 +34,10 @@ fn main() {
     if id == "CHILD-DEPTH" {
         let d: usize = args[2].parse().unwrap();
         std::process::exit(c02::child_depth(d, &args[3]));
+    }
+    if id == "CHILD-DEEP-OPS" {
+        let d: usize = args[2].parse().unwrap();
+        std::process::exit(c12::child_deep_ops(d));
     }
     if id == "GRAMMAR" {
         // verif grammar <ELEMENT-NAME> <version index>: print the grammar of every type with that name
@@ -98,6 +103,7 @@ fn main() {
                         "C05" => histprops::replay(&ctx, histprops::Prop::C05, &case),
                         "C10" => histprops::replay(&ctx, histprops::Prop::C10, &case),
                         "C11" => histprops::replay(&ctx, histprops::Prop::C11, &case),
+                        "C12" => c12::replay(&ctx, &case),
                         "C18" => c18::replay(&ctx, &case),
                         "C19" => c19::replay(&ctx, &case),
                         _ => usage(),
@@ -113,6 +119,7 @@ fn main() {
                         "C05" => histprops::run(&ctx, histprops::Prop::C05),
                         "C10" => histprops::run(&ctx, histprops::Prop::C10),
                         "C11" => histprops::run(&ctx, histprops::Prop::C11),
+                        "C12" => c12::run(&ctx),
                         "C18" => c18::run(&ctx),
                         "C19" => c19::run(&ctx),
                         _ => usage(),
